@@ -125,7 +125,18 @@ export function checkRejected({ rep, stats, parser, parserName, vx, typeText, sk
   try {
     sp = parser.safeParse(input, opts);
   } catch (e) {
-    return; // C03's matter
+    // a rejected value for which safeParse throws gets no errors reported at all
+    let rejected = null;
+    try {
+      rejected = parser.validate(build(vx), opts) === false;
+    } catch {}
+    if (vx.cyclic && /Maximum call stack size exceeded/.test(String(e?.message))) {
+      rep.violation("C12 cyclic input : stack overflow instead of errors (the C03 known finding seen from safeParse)", `${typeText} on ${src} [${oname}]: safeParse threw ${e?.message}`, { engine: "E-src", program, parser: parserName, type: typeText, case_id: skel.replace(/\blit:\w+/g, "_"), value: src, options: oname });
+      return;
+    }
+    if (rejected !== true) return; // an accepted value, or validate throws as well: C03's matter
+    stats.evaluations++;
+    return fail(`safeParse threw ${e?.constructor?.name}: ${String(e?.message).slice(0, 80)} instead of reporting errors`, "count");
   }
   if (sp.success) return;
   stats.evaluations++;
